@@ -388,7 +388,21 @@ func (vc *FuncVC) Encode() {
 		vc.dryGlobals[g] = true
 	}
 	vc.reset(false)
+	vc.caMatched = nil
 	vc.run()
+	// an assertion point that no longer exists: the function does not call the named callee any more, so the
+	// statement the contract makes there is not checked anywhere
+	if vc.con != nil {
+		for _, ca := range vc.con.CallAsserts {
+			if !vc.caMatched[ca] {
+				site := ""
+				if ca.Site != 0 {
+					site = fmt.Sprintf(" (site %d)", ca.Site)
+				}
+				vc.errorf("%s: at call %s%s: the function has no such call; the assertion point is gone", ca.Clause.Where, ca.Callee, site)
+			}
+		}
+	}
 }
 
 func rpo(fn *ssa.Function) []*ssa.BasicBlock {
